@@ -15,9 +15,9 @@ case "$demo" in $stag/*) mod=$wt/$stag; rel=${demo#$stag/};; esac
 pkg=./$(dirname $rel)
 echo "demo file: $demo  module: $mod package: $pkg" >> $log
 with=$(cd $mod && timeout 900 go test -vet=off -count=1 -run 'Seeded' $pkg 2>&1 | tail -3); echo "WITH CHANGE: $with" >> $log
-git stash -q
+git diff > /tmp/wt/$id.own.diff; git apply -R /tmp/wt/$id.own.diff   # (git stash is shared between worktrees: not used)
 without=$(cd $mod && timeout 900 go test -vet=off -count=1 -run 'Seeded' $pkg 2>&1 | tail -3); echo "WITHOUT CHANGE: $without" >> $log
-git stash pop -q
+git apply /tmp/wt/$id.own.diff
 mv $demo /tmp/wt/$id.demo
 suite=$( (cd $mod && timeout 1500 go build ./... && timeout 1800 go test -vet=off -count=1 ./... ) 2>&1 | grep "^FAIL\|^--- FAIL\|^panic\|\.go:[0-9]*:[0-9]*:" | grep -v "ToStorageMap\|^FAIL$\|apiserver-runtime/pkg/registry" | tail -5); echo "SUITE($mod) unexpected lines: $suite" >> $log
 mv /tmp/wt/$id.demo $demo
